@@ -135,3 +135,34 @@ def run(ctx: Context) -> None:  # noqa: F811
     ctx.rep.rule('C13.R7', "each real backend's write() hands every byte of a frame to the OS exactly once and in order (shared with C03.R9)")
     backend.write_all(ctx, 'C13.R7')
     ctx.rep.explanation = (ctx.rep.explanation or '') + ' R7 (transport layer, shared with C03.R9): the backend write() delivers each encoded frame completely and in order.'
+
+
+def _end_stream_agreement(ctx: Context) -> None:
+    """A body can only be delivered if the HEADERS frame left the stream open: END_STREAM on HEADERS and the early return of the
+    body routine must be the SAME predicate over the SAME object (shared with C03.R4)."""
+    from .common import effective_body
+
+    rep = ctx.rep
+    for tree, N in trees(ctx):
+        h2 = N.cls("http2", "AsyncHTTP2Connection")
+        s2 = h2.methods["_send_request_headers"]
+        body = h2.methods["_send_request_body"]
+        calls = [c for c in own_nodes(s2.node) if isinstance(c, ast.Call) and norm(c.func) == "self._h2_state.send_headers"]
+        first = next(iter(effective_body(body.node.body)), None)
+        early = norm(first.test) if isinstance(first, ast.If) and len(first.body) == 1 and isinstance(first.body[0], ast.Return) else None
+        for c in calls:
+            esrc = [norm(a) for k in c.keywords if k.arg == "end_stream" for a in ctx.prov.expand(k.value, s2, c)]
+            ok = early is not None and esrc == [early]
+            rep.ob("C13.R8", fkey(tree, s2, "end-stream-agreement"), ok, where(s2, c),
+                   f"END_STREAM on HEADERS <- {esrc}; the body routine returns early on `{early}`" + ("" if ok else
+                   ": the two sites disagree for some request - HEADERS closes a stream whose body is then refused by h2 (or a stream with no body is never ended)"))
+        rep.floor("C13.R8", f"send_headers call ({tree})", len(calls), 1)
+
+
+_core_run3 = run
+
+
+def run(ctx: Context) -> None:  # noqa: F811
+    _core_run3(ctx)
+    ctx.rep.rule("C13.R8", "END_STREAM on HEADERS and the early return of the body routine are the same predicate over the same object (shared with C03.R4)")
+    _end_stream_agreement(ctx)
